@@ -15,9 +15,12 @@ class Unit:
     axioms: list of z3 formulas (definitional axioms of spec functions) sent with every obligation
     expect_raise: if True a path ending in an exception is fine; otherwise `on_raise(I, exc)` decides
     """
-    def __init__(self, name, body, loops=None, funcs=None, axioms=(), on_raise=None, functions=(), on_result=None, assumptions=()):
+    def __init__(self, name, body, loops=None, funcs=None, axioms=(), on_raise=None, functions=(), on_result=None, assumptions=(), reject_name=None):
         self.name, self.body, self.loops, self.funcs, self.axioms = name, body, loops or {}, funcs or {}, list(axioms)
         self.on_raise = on_raise
+        # name of the clause 'this input is rejected': a raising path discharges it, a completing path states it as False under the same name (so that
+        # accepting the input fails a baseline obligation instead of producing a new, unknown one)
+        self.reject_name = reject_name
         self.functions = list(functions)     # qualnames of the repo functions this unit puts under contract
         self.assumptions = list(assumptions)
 
